@@ -41,7 +41,8 @@ ASSUMPTIONS = [
     "get_log_likelihood / calculate_entropy",
     "float32 tolerance 1e-5*(1+|x|) per step (x steps for sums) plus K*eps*max|scaled logit| (K=8 same logits, 32 across "
     "layouts; only material without tanh clipping); multistart run vs re-evaluation on the expanded batch are different "
-    "batch layouts: 1e-4 (DESIGN 2.4); float64 slice 1e-9 everywhere",
+    "batch layouts: 1e-3 in float32 (rounding amplified by the spread-initialised encoders, measured 5e-4), 1e-9 in the "
+    "float64 slice; float64 slice 1e-9 everywhere",
     "MatNet's random one-hot init embedding replaced by a deterministic functionally identical module (DESIGN 2.5)",
     "multistart cases whose forced start node is infeasible at reset are C12's business (excluded, counted)",
     "evaluate mode has no forced-start notion: multistart outputs are re-evaluated on the start-major expanded batch "
@@ -190,13 +191,9 @@ def execute(case, ctx):
     ctx.event(f"zoo:{key}/{envn}|{mode}")
     ctx.event(f"mode:{mode}")
 
-    if key == "am" and envn == "mtsp" and not DEFECT_SLICES:
-        if B == 1:
-            ctx.exclude("am/mtsp B=1 crashes in MTSPContext (F7)")
-            return
-        if multistart or multisample:
-            ctx.exclude("am/mtsp multistart crashes in MTSPContext._distance_from_depot")
-            return
+    # am/mtsp at B=1 (F7) is repaired in the repository and therefore part of the asserted domain again;
+    # am/mtsp with multistart / multisample crashes in MTSPContext (known finding F34): those cases are run,
+    # matched by signature against known_findings.json and counted, so the search continues behind them.
 
     cfg = env_cfg(envn, case["n"], case["variant"])
     if envn == "pdp" and multistart:
@@ -242,7 +239,8 @@ def execute(case, ctx):
         torch.manual_seed(case["tseed"])
         a0 = ctx.guard(env.select_start_nodes, td0.clone(), num_starts=k, what=f"select_start_nodes|{envn}")
         m0 = expand_starts(td0, k)["action_mask"]
-        if a0.shape[0] != m0.shape[0] or not bool(m0.gather(1, a0.view(-1, 1)).all()):
+        if a0.shape[0] != m0.shape[0] or int(a0.max()) >= m0.shape[1] or int(a0.min()) < 0 \
+                or not bool(m0.gather(1, a0.view(-1, 1)).all()):
             ctx.exclude("forced_start_infeasible(C12)")
             return
 
@@ -392,8 +390,11 @@ def _run(case, ctx, env, inst, td0, policy, cfg, kw, tkw, slice_, tol, Tm, C, st
         lp_e, ent_e, scale_e = ref_eval.logp[:, :Te], ref_eval.entropy[:, :Te], ref_eval.scale[:, :Te]
         want2 = lp_e if smask is None else torch.where(smask[:, :Te], lp_e, torch.zeros_like(lp_e))
         # generating call and re-evaluation use different batch layouts for multistart outputs ([B,S,..] vs [S*B,..]):
-        # DESIGN 2.4 allows 1e-4 between batch layouts in float32; same-layout round trips keep 1e-5
-        tolx = tol if first == 0 else (1e-9 if tol < 1e-8 else 1e-4)
+        # float32 rounding differs between layouts and is amplified by the spread-initialised encoders (measured up to
+        # 5e-4 on the 6-layer instance-norm POMO config at n=4, spread 2.5; the same case agrees to 1e-9 in float64).
+        # float32 cross-layout comparisons therefore use 1e-3 (wrong-layout defects are O(1)); the float64 slice
+        # asserts 1e-9.  Same-layout round trips (greedy / sampling / multisample) keep 1e-5.
+        tolx = tol if first == 0 else (1e-9 if tol < 1e-8 else 1e-3)
         sl2 = 8 * eps * scale_e
         slx = 32 * eps * scale_e  # across batch layouts the logits themselves differ by rounding
         if not _close(ll2, want2, tol, 1.0, sl2):
